@@ -305,6 +305,16 @@ func (c *simClient) implInProcess(ctx context.Context, in io.ReadCloser, out io.
 		}
 	}
 	for {
+		if c.sc.ExitAfterRead >= 0 && len(c.received) >= c.sc.ExitAfterRead {
+			// the function returns early (cleanly or with an error) WITHOUT
+			// touching its pipes: closing them is the in-process seam's job
+			c.faultFired["in-process-exit-early"]++
+			wait()
+			if c.sc.ExitNonZero {
+				return errors.New("scripted in-process client: giving up")
+			}
+			return nil
+		}
 		var hdr [4]byte
 		if _, err := simrt.ReadFull(in, hdr[:], "simclient.read"); err != nil {
 			wait()
